@@ -68,7 +68,7 @@ impl Property for C05 {
     fn strategy(&self, suite: SuiteId, _tier: Tier, stratum: u32) -> BoxedStrategy<Case> {
         let s_size = stratum as u16;
         let extra_max: u16 = if suite.slow() { 1 } else { 3 };
-        let src = prop_oneof![3 => Just(KeySource::Dealer), 1 => Just(KeySource::Dkg), 1 => Just(KeySource::DealerRefreshed), 1 => Just(KeySource::Repaired)];
+        let src = prop_oneof![3 => Just(KeySource::Dealer), 1 => Just(KeySource::Dkg), 1 => Just(KeySource::DealerRefreshed), 1 => Just(KeySource::Repaired), 1 => Just(KeySource::History(0))];
         (0..=extra_max, any::<u16>(), idspec_strategy(None), src, any::<u64>(), msg_short_strategy(), msg_short_strategy(), any::<bool>(), any::<u64>())
             .prop_map(move |(extra, ti, ids, source, subset_seed, msg_a, msg_b, same_message, seed)| {
                 let n = s_size + extra;
